@@ -3,7 +3,7 @@ open Qvmodel
 open Runner
 
 let fq_read_file (path : string) : string =
-  let ic = open_in_bin path in
+  let ic = (try open_in_bin path with Sys_error m -> failwith ("cannot open " ^ path)) in
   let n = in_channel_length ic in
   let s = really_input_string ic n in
   close_in ic; s
@@ -28,4 +28,11 @@ let () =
       (match fixqdf (bytes_of_string (fq_read_file inp)) with
        | FqDone o -> fq_write_file outp (string_of_bytes o); "0"
        | FqFail (o, e) -> fq_write_file outp (string_of_bytes o); "2 " ^ fq_err_text e)
+    | _ -> "?args");
+  (* qdflayout <path>: the layout recogniser of File/QdfLayout.v: "ok" or "bad <rule> <line>" *)
+  register "qdflayout" (fun args -> match args with
+    | [inp] ->
+      (match qdf_layout (bytes_of_string (fq_read_file inp)) with
+       | QlOk -> "ok"
+       | QlBad (r, l) -> Printf.sprintf "bad %d %d" (int_of_n r) (int_of_n l))
     | _ -> "?args")
